@@ -627,6 +627,7 @@ func build(tier string) []explore.Scenario {
 	}
 	cs := []cfg{
 		{name: "bootstrap-race/2preexisting/1reader", pre: []wop{"create a", "create b"}, script: []wop{"update a"}, prologue: false, readers: 1, nReads: 1, bounds: b0},
+		{name: "bootstrap-race/1preexisting/1reader-reads-twice", pre: []wop{"create a"}, script: []wop{"update a"}, prologue: false, readers: 1, nReads: 2, bounds: []int{0}},
 		{name: "bootstrap-coalesced/3preexisting", pre: []wop{"create a", "create b", "create c"}, script: []wop{"update b", "destroy c", "create d"}, prologue: false, readers: 0, bounds: []int{0}, coalesce: true},
 		{name: "steady-coalesced/update-create/1reader", pre: []wop{"create a", "create b"}, script: []wop{"update a", "create c"}, prologue: true, readers: 1, nReads: 1, bounds: []int{0}, coalesce: true},
 		{name: "steady/writes-through-cached-state/1reader", pre: []wop{"create a"}, script: []wop{"update a", "update a", "update a"}, prologue: true, readers: 1, nReads: 1, bounds: []int{0}, viaCached: true},
